@@ -45,6 +45,7 @@ func __ghostset(name string, f func() int)               {}
 func __lastsent[T any](ch chan T) (r T)                  { return }
 func __sentcount[T any](ch chan T) int                   { return 0 }
 func __assert(label string, f func() bool)               {}
+func __dynpreserves(locs ...any)                         {}
 func __forallkeys[K comparable, V any](m map[K]V, f func(K) bool) bool { return true }
 func __haskey[K comparable, V any](m map[K]V, k K) bool  { _, ok := m[k]; return ok }
 func __visited(k any) bool                               { return true }
@@ -266,6 +267,15 @@ func buildOverlay(pkgDir string) (*OverlayResult, error) {
 				}
 				fmt.Fprintf(&sb, " __decreases(%s);", strings.Join(ds, ", "))
 			}
+			if len(c.DynPreserves) > 0 {
+				var locs []string
+				for _, m := range c.DynPreserves {
+					if txt, ok := substSelf(m, fd, c.FromTemplate); ok {
+						locs = append(locs, "&("+txt+")")
+					}
+				}
+				fmt.Fprintf(&sb, " __dynpreserves(%s);", strings.Join(locs, ", "))
+			}
 			if sp := c.Flags["split"]; sp != "" {
 				// "split <expr> in lo..hi": verify once per value of expr
 				if k := strings.LastIndex(sp, " in "); k > 0 {
@@ -296,21 +306,25 @@ func buildOverlay(pkgDir string) (*OverlayResult, error) {
 			loops := collectLoops(fd.Body)
 			if len(c.LoopInv) > 0 || len(c.LoopDec) > 0 {
 				for n, l := range loops {
-					if _, isFor := l.(*ast.ForStmt); !isFor {
-						continue
+					_, isFor := l.(*ast.ForStmt)
+					// range loops terminate by construction: they take the default
+					// invariants but no decreases clause
+					dec := c.LoopDec
+					if !isFor {
+						dec = nil
 					}
 					if lc := c.Loops[n+1]; lc != nil {
 						// explicit loop contract: the template's clauses are added to it
 						if !lc.merged {
 							lc.Invariants = append(append([]Clause(nil), c.LoopInv...), lc.Invariants...)
 							if len(lc.Decreases) == 0 {
-								lc.Decreases = c.LoopDec
+								lc.Decreases = dec
 							}
 							lc.merged = true
 						}
 						continue
 					}
-					c.Loops[n+1] = &LoopContract{Invariants: c.LoopInv, Decreases: c.LoopDec, merged: true}
+					c.Loops[n+1] = &LoopContract{Invariants: c.LoopInv, Decreases: dec, merged: true}
 				}
 			}
 			for n, lc := range c.Loops {
